@@ -148,6 +148,7 @@ class Console:
         self.noise: dict[int, list[bytes]] = {}  # step index -> raw frames sent before the answer
         self.segment: Optional[Callable[[bytes], list[bytes]]] = None
         self.turns = 0          # event-loop iterations the client gets between two segments
+        self.mute: set = set()  # request kinds this console does not answer (e.g. {"error_info"})
         self.answer_controls = False
         self.manual = False                     # True: never answer, only record
         self.pid = 100
@@ -241,7 +242,7 @@ class Console:
                     continue
                 kind = self.classify(msg)
                 self.requests.append((now, conn.cid, kind or type(getattr(msg, "sub_message", msg)).__name__, pid))
-                if kind is None or self.manual:
+                if kind is None or self.manual or kind in self.mute:
                     continue
                 step = STEPS.index(kind) if kind in STEPS else None
                 if step is not None and self.silent_from is not None and step >= self.silent_from:
